@@ -19,11 +19,14 @@ import (
 	"fmt"
 	"path/filepath"
 	"sync"
+	"time"
 
+	"github.com/nspcc-dev/bbolt"
 	"github.com/nspcc-dev/hrw/v2"
 	ierrors "github.com/nspcc-dev/neofs-node/internal/errors"
 	"github.com/nspcc-dev/neofs-node/pkg/local_object_storage/blobstor/common"
 	"github.com/nspcc-dev/neofs-node/pkg/local_object_storage/engine"
+	meta "github.com/nspcc-dev/neofs-node/pkg/local_object_storage/metabase"
 	"github.com/nspcc-dev/neofs-node/pkg/local_object_storage/shard"
 	"github.com/nspcc-dev/neofs-node/pkg/local_object_storage/shard/mode"
 	"github.com/nspcc-dev/neofs-node/verifharness/faultstore"
@@ -121,7 +124,10 @@ func (e *Eng) newSlot(k int, dir string, id common.ID, plain bool) (*Sh, stor.Sh
 			return nil, stor.ShardCfg{}, err
 		}
 	}
-	cfg := stor.ShardCfg{Dir: dir, Epoch: e.Ep}
+	// bbolt tuning only (no durability is needed on per-case temp dirs; a large
+	// initial mapping avoids the munmap/mmap cycle on every file growth).
+	cfg := stor.ShardCfg{Dir: dir, Epoch: e.Ep, MetaOpts: []meta.Option{meta.WithBoltDBOptions(&bbolt.Options{
+		NoSync: true, NoGrowSync: true, NoFreelistSync: true, InitialMmapSize: 1 << 20, Timeout: 5 * time.Second})}}
 	if !plain {
 		s.FS = faultstore.New(stor.FSTree(stor.BlobDir(dir)))
 		s.FS.Fail = func(m string, _ []oid.Address) error {
